@@ -136,6 +136,13 @@ CHECKS = {
             'interrupted student thread is made deterministic at three points instead of being left to timing.',
             'Only the three sync points are controlled; the wall-clock bound (limit + 30 s) only detects hangs; a zombie '
             'thread that swallows BaseException and prints is an open known finding.', '3/C14'),
+    'C13': ('Hypothesis-generated histories (and all [j, i, j] triples around state-changing scripts) over a seeded pool of '
+            '(instructor script, submission, environment) triples, each history in one forked process, every step compared '
+            'with the same triple graded alone in a fresh interpreter by pedal\'s own Bundle runner',
+            'About 700 histories per quick run over a pool of 48 triples (30k over 200 thorough); 15 state-changing prelude '
+            'kinds, 13 body kinds, crash/early-resolve tails, 8 submissions, 3 environments.',
+            'Fragments use pedal\'s public API only; vpl and environment=None are not driven; references come from fresh '
+            'python processes (one per triple).', '3/C13'),
 }
 
 NOT_YET = {}
